@@ -29,7 +29,9 @@ RULE = (
     "connection (EOF/READ_ERROR at once, TIMEOUT within the read timeout) instead of hanging; a bad first frame "
     "closes that accepted connection only (a second connection opened afterwards still delivers). Non-trivial = a "
     "hostile (undecodable) frame followed by at least one valid frame that must still be delivered; distinct = "
-    "distinct (kind, frame-kind sequence, rejection-cause sequence, segmentation class)."
+    "distinct (kind, frame-kind sequence, rejection-cause sequence, segmentation class). Thorough additionally runs "
+    "atheris (libFuzzer, coverage-guided) on decode_message_data per connection kind with the oracle 'returns a "
+    "message or raises MessageDeserializationError'; findings are replayed without atheris."
 )
 ASSUMPTIONS = [
     "length prefixes in generated streams are <= 64 KiB (resource exhaustion by huge prefixes / zlib bombs is out of "
@@ -264,8 +266,74 @@ def _sanitise(case):
             'end': end, 'bad_first': bool(case.get('bad_first')) and kind != 'server', 'init_key': init_key}
 
 
+FUZZ_KINDS = ['server', 'peerP', 'peerD', 'init']
+
+
+def run_raw_case(case, res):
+    """Replay of a coverage-guided fuzzing finding: one raw frame body through decode_message_data."""
+    from aioslsk.exceptions import MessageDeserializationError
+    kind = case.get('kind')
+    if kind not in FUZZ_KINDS:
+        return
+    try:
+        body = bytes.fromhex(case.get('hex', ''))[:4096]
+    except ValueError:
+        return
+    conn = _fresh_connection({'server': 'server', 'peerP': 'peerP', 'peerD': 'peerD', 'init': 'peerP'}[kind],
+                             established=kind != 'init')
+    res.label('raw:' + kind)
+    try:
+        conn.decode_message_data(struct.pack('<I', len(body)) + body)
+        res.label('raw:decoded')
+    except MessageDeserializationError:
+        res.label('raw:rejected')
+    except Exception as exc:
+        res.violate(f'C02/decoder-raised:{type(exc).__name__}:raw:{kind}', f'{body[:64].hex()} {exc!r}')
+    res.nontrivial = True
+
+
+def _fuzz_tier(ctx):
+    """atheris / libFuzzer on decode_message_data, one connection kind per shard (thorough only)."""
+    import os
+    import shutil
+    import subprocess
+    import sys
+    import tempfile
+    import time
+    kind = FUZZ_KINDS[ctx.shard]
+    verif = os.path.dirname(os.path.dirname(os.path.abspath(__file__)))
+    runs = int(os.environ.get('VFW_FUZZ_RUNS', '1500000'))
+    tmp = tempfile.mkdtemp(prefix='vfw-fuzz-')
+    try:
+        art = os.path.join(tmp, 'art')
+        corpus = os.path.join(tmp, 'corpus')
+        os.makedirs(corpus)
+        cmd = [sys.executable, '-m', 'vfw.fuzz_c02', kind, str(runs), str(ctx.base_seed), art, corpus]
+        try:
+            proc = subprocess.run(cmd, cwd=verif, capture_output=True, text=True,
+                                  timeout=max(60, ctx.deadline - time.time()))
+        except subprocess.TimeoutExpired:
+            ctx.extra['fuzz_timeouts'] = ctx.extra.get('fuzz_timeouts', 0) + 1
+            return
+        tail = (proc.stderr or '')[-1500:]
+        if 'No module named' in tail and 'atheris' in tail:
+            ctx.extra['fuzz_skipped_no_atheris'] = 1
+            return
+        ctx.extra['fuzz_executions'] = ctx.extra.get('fuzz_executions', 0) + runs
+        if os.path.isdir(art):
+            for name in sorted(os.listdir(art)):
+                with open(os.path.join(art, name), 'rb') as fh:
+                    body = fh.read()
+                ctx.run({'t': 'raw', 'kind': kind, 'hex': body.hex()})
+    finally:
+        shutil.rmtree(tmp, ignore_errors=True)
+
+
 def run_case(case) -> CaseResult:
     res = CaseResult()
+    if isinstance(case, dict) and case.get('t') == 'raw':
+        run_raw_case(case, res)
+        return res
     c = _sanitise(case)
     if not c['frames']:
         return res
@@ -562,6 +630,8 @@ def run_shard(ctx):
     n_client = 50 if ctx.tier == 'quick' else 1500
     ctx.explore(case_strategy(), n_net)
     ctx.explore(case_strategy(mode='client'), n_client, salt=1)
+    if ctx.tier == 'thorough' and ctx.shard < len(FUZZ_KINDS):
+        _fuzz_tier(ctx)
 
 
 MANIFEST_ENTRY = {
